@@ -1158,7 +1158,9 @@ def two_writer_campaign(ck: Ck, do_model: bool) -> None:
         if not exhaustive:
             for k1 in range(n1 + 1):
                 for k2 in range(n2 + 1):
-                    for prefix in ([0] * k1 + [1] * k2, [1] * k2 + [0] * k1):
+                    # quick tier: the mirrored order only for every other pair (the DFS / the theorem cover all)
+                    for prefix in ([[0] * k1 + [1] * k2, [1] * k2 + [0] * k1] if big or (k1 + k2) % 2
+                                   else [[0] * k1 + [1] * k2]):
                         r = run_two((P.sa, P.sb), work, prefix + [1, 0] * 3, P.init)
                         if tuple(r['executed']) in seen_sched:
                             continue
@@ -1171,7 +1173,7 @@ def two_writer_campaign(ck: Ck, do_model: bool) -> None:
         nfault = 0
         scheds = [[], [1] * 40, [0, 1] * 20, [1, 0] * 20] + [[ck.rng.randrange(2) for _ in range(40)]
                                                             for _ in range(budget(ck, 2, 8))]
-        for sc_i, prefix in enumerate(scheds if (limit or big) else scheds[:3]):
+        for sc_i, prefix in enumerate(scheds if (limit or big) else [scheds[0], scheds[2]]):
             n_ops = len(run_two((P.sa, P.sb), work, prefix, P.init)['ops'])
             for k in range(1, n_ops + 1):
                 r = run_two((P.sa, P.sb), work, prefix, P.init, fault_at=k)
